@@ -206,3 +206,60 @@ mod tests {
         assert_ne!(last_reset_after, backoff.reset_after);
     }
 }
+
+/// Verification hooks: constructor from an explicit configuration and seed, read-only accessors
+/// and a clock shift for the external verification harness. Compiled only with
+/// `--cfg p2panda_p2panda_verif`; nothing above is changed.
+#[cfg(all(p2panda_p2panda_verif, not(test)))]
+#[doc(hidden)]
+impl Backoff {
+    /// `[initial_value, min_increment, max_increment, max_value, min_reset, max_reset]` in
+    /// milliseconds; `None` uses `Config::default()`.
+    pub fn verif_new(config_ms: Option<[u64; 6]>, seed: [u8; 32]) -> Self {
+        use rand::SeedableRng;
+        let config = match config_ms {
+            Some(c) => Config {
+                initial_value: Duration::from_millis(c[0]),
+                min_increment: Duration::from_millis(c[1]),
+                max_increment: Duration::from_millis(c[2]),
+                max_value: Duration::from_millis(c[3]),
+                min_reset: Duration::from_millis(c[4]),
+                max_reset: Duration::from_millis(c[5]),
+            },
+            None => Config::default(),
+        };
+        Self::new(config, ChaCha20Rng::from_seed(seed))
+    }
+
+    pub fn verif_config_ms(&self) -> [u128; 6] {
+        [
+            self.config.initial_value.as_millis(),
+            self.config.min_increment.as_millis(),
+            self.config.max_increment.as_millis(),
+            self.config.max_value.as_millis(),
+            self.config.min_reset.as_millis(),
+            self.config.max_reset.as_millis(),
+        ]
+    }
+
+    pub fn verif_value(&self) -> Duration {
+        self.value
+    }
+
+    pub fn verif_reset_after(&self) -> Duration {
+        self.reset_after
+    }
+
+    pub fn verif_elapsed(&self) -> Duration {
+        self.last_reset_at.elapsed()
+    }
+
+    /// Moves `last_reset_at` back by `d`, which is what the passing of `d` looks like to
+    /// `increment`.
+    pub fn verif_shift_clock(&mut self, d: Duration) {
+        self.last_reset_at = self
+            .last_reset_at
+            .checked_sub(d)
+            .expect("clock shift within the range of Instant");
+    }
+}
